@@ -440,6 +440,26 @@ theorem content_only_if_complete (hI : ChunkInvariant I) (c : Coding) (ps : List
       · simp only [finish, toProtocol, Except.ok.injEq] at h
         rw [h]
 
+/-- **The verdict does not depend on whether the caller keeps the body.**
+With `file=None` (`observed false`) the result is an exception exactly when it
+is one with a file, and it is the same exception: the final flush — where a
+truncated stream is detected — runs unconditionally. -/
+theorem discarded_body_same_verdict (c : Coding) (ps : List Bytes) (e : PyExc) :
+    Outcome.observed I (readBodyFrom I (setup I c) ps) false = .error e ↔ readBody I c ps = .error e := by
+  unfold Outcome.observed readBody
+  cases (readBodyFrom I (setup I c) ps).result <;> simp [Except.map]
+
+/-- truncated / corrupt data is a ProtocolError also when the body is discarded -/
+theorem truncated_is_protocol_error_without_file (hI : ChunkInvariant I) (c : Coding) (ps : List Bytes)
+    (hne : ∀ p ∈ ps, p ≠ []) (m : Mode) (out : Bytes)
+    (hm : selectedMode c ps.flatten = some m)
+    (htr : runAll I m [ps.flatten] = .ok (out, false)) :
+    Outcome.observed I (readBodyFrom I (setup I c) ps) false = .error .ProtocolError :=
+  (discarded_body_same_verdict I c ps _).2 (truncated_is_protocol_error I hI c ps hne m out hm htr)
+
+example : Outcome.observed toy (readBodyFrom toy (setup toy .gzip) [[0x1f, 0x8b], [1, 65]]) false = .error .ProtocolError := by decide
+example : Outcome.observed toy (readBodyFrom toy (setup toy .gzip) [[0x1f, 0x8b], [1, 65, 0]]) false = .ok [] := by decide
+
 /-! ### non-vacuity: the hypothesis is satisfiable and the conclusions are not trivial -/
 
 /-- gzip stream "AB" in three pieces, the first one a single byte -/
